@@ -315,7 +315,7 @@ pub fn narrow(case: &Value, sub: u64) -> Value {
     if batch && c["only"].is_null() {
         c["only"] = json!(sub);
         if c["family"] == "format1_width" {
-            c["described"] = json!(iftf1::describe(&c));
+            c["described"] = json!(if c["big"] == true { iftf1::describe_big(&c) } else { iftf1::describe(&c) });
         }
         if c["driver"] == "colridx" {
             c["described"] = json!(colridx::describe(&c));
